@@ -530,6 +530,7 @@ func processStatementArrays(tree *ParserT, value []rune, v any, exec bool) error
 			for i := range t {
 				value = []rune(t[i])
 				appendToParam(tree, value...)
+				tree.statement.canHaveZeroLenStr = true // an empty element is still an element
 				if err := tree.nextParameter(); err != nil {
 					return err
 				}
@@ -538,6 +539,7 @@ func processStatementArrays(tree *ParserT, value []rune, v any, exec bool) error
 			for i := range t {
 				value = t[i]
 				appendToParam(tree, value...)
+				tree.statement.canHaveZeroLenStr = true // an empty element is still an element
 				if err := tree.nextParameter(); err != nil {
 					return err
 				}
@@ -546,6 +548,7 @@ func processStatementArrays(tree *ParserT, value []rune, v any, exec bool) error
 			for i := range t {
 				value = []rune(string(t[i]))
 				appendToParam(tree, value...)
+				tree.statement.canHaveZeroLenStr = true // an empty element is still an element
 				if err := tree.nextParameter(); err != nil {
 					return err
 				}
@@ -558,6 +561,7 @@ func processStatementArrays(tree *ParserT, value []rune, v any, exec bool) error
 				}
 				value = []rune(s.(string))
 				appendToParam(tree, value...)
+				tree.statement.canHaveZeroLenStr = true // an empty element is still an element
 				if err := tree.nextParameter(); err != nil {
 					return err
 				}
